@@ -15,6 +15,9 @@ ValidationFailure).  Three streams:
  C. the same fetcher over a real NDNApp with a recording dummy face on the virtual-time loop: ties
     the keyword arguments to what app.express_interest actually sends (CanBePrefix, MustBeFresh,
     lifetime) and the real timeout / nack / validation paths of app.py.
+ D/E. (c19_conc.py) several fetches at once over one fake / one real application.
+ F. (c19_sig.py) really signed segments (own encoder, 33 signature shapes) with the application's default validator and
+    the shipped checkers in force; "must be refused" recomputed on the wire.
 """
 import asyncio
 import itertools
